@@ -13,6 +13,9 @@ package tree
 // reduced fan-out (only the constant is rewritten): heights 1..3
 //verif:case C01,C03 quick VerifTreeStep 0..3 1..2 -1 0 -1..0 @variant=bf4 @unwind=600
 //verif:case C01,C03 quick VerifTreeStep 0..3 3 1 0 -1 @variant=bf4 @unwind=600
+//verif:case C01 quick VerifTreeStep 4..5 2 -1 0 -1 @variant=bf4 @unwind=600
+//verif:case C01 thorough VerifTreeStep 4..5 3 1 0 -1 @variant=bf4 @unwind=600
+//verif:case C01 thorough VerifTreeStep 4..5 2 1 0 -1 @unwind=600
 //verif:case C01,C03 thorough VerifTreeStep 0..3 3 1 0 0..1 @variant=bf4 @unwind=600
 //verif:case C01,C03 thorough VerifTreeStep 0..3 3 2..3 0 -1..0 @variant=bf4 @unwind=600
 //verif:case C01,C03 quick VerifTreeStep 0..3 1..2 -1 1 -1 @variant=bf4 @unwind=600
@@ -381,6 +384,33 @@ func VerifTreeStep(op int, height int, rootN int, order int, zeroAt int) {
 		vAssert(m.Len() == pre.count-vIte(foundK, 1, 0), "C01:delete/len")
 		_ = post
 		vCover("tree-delete")
+	case 4, 5: // Put / Delete followed by a full iteration: what a user sees after the mutation
+		if op == 4 {
+			m2.Put(k, vNondet[vK]("v"))
+		} else {
+			m2.Delete(k)
+		}
+		it := m.Iterate()
+		n := 0
+		var prev vK
+		panicked := vTry(func() {
+			for i := 0; i < vSlots(height)+3; i++ {
+				kv, ok := it.Next()
+				if !ok {
+					break
+				}
+				f, v := vFind(t, kv.Key)
+				vAssert(vAnd(f, v == kv.Value), "C01:mutate-iterate/yields-current-entries")
+				if n > 0 {
+					vAssert(vLT(order, prev, kv.Key), "C01:mutate-iterate/ascending")
+				}
+				prev = kv.Key
+				n++
+			}
+		})
+		vAssert(!panicked, "C01:mutate-iterate/no-panic")
+		vAssert(n == m.Len(), "C01:mutate-iterate/visits-every-entry-once")
+		vCover("tree-mutate-iterate")
 	case 2: // Get / Contains, with the comparison budget of C03
 		g := m2.Get(k)
 		c := m2.Contains(k)
